@@ -123,6 +123,7 @@ static void make_nonblocking(int fd)
 
 static void reply(int s, const char *fmt, long a, long b, long c, long d)
 {
+  if (s < 0) return;  // "nosock" mode: nobody to report to
   char m[128];
   int n = snprintf(m, sizeof m, fmt, a, b, c, d);
   if (msg_send(s, m, (uint32_t) n) < 0) _exit(0);
@@ -149,6 +150,11 @@ int vchild_run(const char *sockpath, const char *flags, const char *tag,
   if (flags && strstr(flags, "ignpipe")) signal(SIGPIPE, SIG_IGN);
   if (flags && strstr(flags, "text")) g_text = 1;
 
+  if (flags && strstr(flags, "nosock")) {
+    // free-running helper for harnesses that only look at its streams and exit status
+    if ((f = strstr(flags, "free:"))) free_run(-1, f + 5);
+    _exit(0);
+  }
   int s = socket(AF_UNIX, SOCK_STREAM | SOCK_CLOEXEC, 0);
   if (s < 0) _exit(113);
   struct sockaddr_un sa;
